@@ -1,19 +1,26 @@
 #!/bin/bash
 # Each seeded change against the check of its own property, full pipeline (minimise + fresh-interpreter replay).
-WT=/tmp/wt_own
+# usage: seed_own.sh [seed ids...]   (default: all);  env W = workers per check, TAG = suffix for scratch names,
+# SNAP=1: run from a private copy of /verif (so that /verif can be edited meanwhile)
+TAG=${TAG:-0}
+WT=/tmp/wt_own_$TAG
+V=/verif
+if [ -n "${SNAP:-}" ]; then V=/tmp/verif_snap_$TAG; rm -rf $V; mkdir -p $V; rsync -a --exclude replays --exclude .git --exclude scratch /verif/ $V/; fi
 git -C /repo worktree remove --force $WT 2>/dev/null
 git -C /repo worktree add -q --detach $WT HEAD || exit 1
 cp /repo/numpoly/cfunctions/*.so $WT/numpoly/cfunctions/
-OUT=/tmp/own_out.tsv; : > $OUT
-for seed in $(ls /verif/seeded | grep -E '^C[0-9]+-'); do
+OUT=/tmp/own_out_$TAG.tsv; : > $OUT
+seeds="$@"; [ -z "$seeds" ] && seeds=$(ls /verif/seeded | grep -E '^C[0-9]+-')
+for seed in $seeds; do
   c=${seed%%-*}
   git -C $WT checkout -q -- .
   git -C $WT apply /verif/seeded/$seed/patch.diff || { echo -e "$seed\t$c\tPATCH-FAILS" >> $OUT; continue; }
-  (cd /verif && VERIF_REPO=$WT PYTHONPATH=$WT timeout 1200 ./check $c --workers ${W:-8} >/tmp/own_last.txt 2>/dev/null); rc=$?
-  first=$(grep -m1 "^violation:" /tmp/own_last.txt | cut -c1-400)
-  hist=$(grep -c "history-dependent" /tmp/own_last.txt)
+  (cd $V && VERIF_REPO=$WT PYTHONPATH=$WT timeout 1500 ./check $c --workers ${W:-8} >/tmp/own_last_$TAG.txt 2>/dev/null); rc=$?
+  first=$(grep -m1 "^violation:" /tmp/own_last_$TAG.txt | cut -c1-400)
+  hist=$(grep -c "history-dependent" /tmp/own_last_$TAG.txt)
   echo -e "$seed\t$c\t$rc\t$hist\t$first" >> $OUT
 done
 git -C $WT checkout -q -- .
 git -C /repo worktree remove --force $WT
+[ -n "${SNAP:-}" ] && rm -rf $V
 echo done >> $OUT
